@@ -20,6 +20,10 @@ def run(ctx):
     res = ctx.drv("resolver-replay", infile=cases, outfile=mm, args={"tries": 64})
     if res["cases"] != total:
         raise vlib.Infra("harness replayed %d of %d cases" % (res["cases"], total))
+    # the CLI path: book files (declaration order, repeated headings: last wins) -> csv database-resolved
+    from props import common
+    common.replay_layer(ctx, "MC_Resolver.tla", "MC_Resolver_records.cfg", "book-reports-replay", "bookfiles", args={"stride": 1}, workers=8,
+                        shape_filter=lambda sh: sh in ("csv-database-resolved-rows", "resolver-status", "report-fails", "cli-panic"))
     # direction (b): executions of the real resolver on random books far beyond the exhaustive bound,
     # recorded (Init, Visit*, Exit) and validated by TLC against Trace_Resolver.tla
     tr = os.path.join(ctx.scratch, "resolver_trace.ndjson")
